@@ -1,6 +1,9 @@
-\* NOT part of the check: the specification with the code's behaviour at committed cap 0
-\* (CapZeroUnbounded = TRUE, finding C10:committed-cap-zero-passed-to-store-as-unbounded).
-\* TLC reports a violation of C10_ReadWindow: Append; Read(service, from 0) returns row 1 with hw = 0.
+\* NOT part of the check: the specification with the two deviations found in the code switched on.
+\*   CapZeroUnbounded = TRUE  finding C10:committed-cap-zero-passed-to-store-as-unbounded (fixed in
+\*                            /repo by 8a300f740): Append; Read(service, from 0) returns row 1 with hw = 0.
+\*   LastUncapped = TRUE      finding C10:last-visible-read-ignores-committed-cap (known):
+\*                            Append; Last(0) returns row 1 with hw = 0.
+\* TLC reports a violation of C10_ReadWindow (3-state counterexample).
 SPECIFICATION Spec
 CONSTANTS
   Followers = {2}
